@@ -184,6 +184,19 @@ def abi_post(results, libinfos, counts):
     return problems, info
 
 
+def mix_tasks(prop, tier, rounds_q=1, rounds_t=6):
+    """one job with a single submit of 2^31.. bytes among short jobs, for every (algorithm, family)"""
+    fams = dict(sha1=["base", "sse", "avx", "avx2", "avx512", "sse_ni", "avx512_ni"], sha256=["base", "sse", "avx", "avx2", "avx512", "sse_ni", "avx512_ni"],
+                sha512=["base", "sse", "avx", "avx2", "avx512", "sb_sse4"], md5=["base", "sse", "avx", "avx2", "avx512"], sm3=["base", "avx2", "avx512"])
+    return [dict(engine="hashmb", variant="plain", timeout=7000,
+                 args=["--prop", prop, "--mode", "big", "--alg", alg, "--fam", f, "--thr", "mix", "--rounds", rounds_q if tier == "quick" else rounds_t, "--watchdog", 6900])
+            for alg in HASH_ALGS for f in fams[alg]]
+
+
+def pairs_tasks(prop):
+    return [dict(engine="hashmb", variant="plain", timeout=3000, args=["--prop", prop, "--mode", "big", "--alg", alg, "--thr", "pairs", "--watchdog", 2900]) for alg in HASH_ALGS]
+
+
 def big_tasks(tier):
     tasks = []
     fams = dict(sha1=["base", "sse", "avx", "avx2", "avx512", "sse_ni", "avx512_ni"], sha256=["base", "sse", "avx", "avx2", "avx512", "sse_ni", "avx512_ni"],
@@ -364,13 +377,15 @@ CHECKS = {
         level="exploration", evaluations="completes", must_observe=["completes", "returned_by_other", "returned_by_flush", "reuses"],
         rule=HIST_RULE + "; evaluations = completed jobs whose digest was compared with the reference hash of the model's byte stream",
         assumptions=TRUST,
-        tasks=hash_tasks("C01", 1500, 60000, 5, variants=("plain", "asan")),
+        tasks=lambda tier: hash_tasks("C01", 1500, 60000, 5, variants=("plain", "asan"))(tier) + pairs_tasks("C01") + (mix_tasks("C01", tier) if tier == "thorough" else []),
     ),
     "C06": dict(
         level="exploration", evaluations="ops", must_observe=["completes", "flushes", "returned_by_other", "idle_returns"],
-        rule=HIST_RULE + "; evaluations = library calls checked against the sequential job-accounting model",
+        rule=HIST_RULE + "; evaluations = library calls checked against the sequential job-accounting model; in addition a lane-relation probe runs on every SIMD (algorithm, family): for every ordered pair of lane positions (huge, shortest) a manager is filled (submit path) "
+             "or filled but for one lane and flushed (flush path) with one job whose single submit is 2^31..2^32-1 bytes, a unique shortest job and distinct medium ones (the packed length words inside the "
+             "managers reach their sign bit); whatever is handed back first must be complete with the reference digest (exhaustive over the pairs; the manager is then abandoned). thorough also completes such mixed-size sets",
         assumptions=TRUST,
-        tasks=hash_tasks("C06", 1500, 60000, 8, variants=("plain", "asan")),
+        tasks=lambda tier: hash_tasks("C06", 1500, 60000, 8, variants=("plain", "asan"))(tier) + pairs_tasks("C06") + (mix_tasks("C06", tier) if tier == "thorough" else []),
     ),
     "C11": dict(
         level="exploration", evaluations="rejects", must_observe=["rejects", "rejects_invalid_flags", "rejects_already_processing", "rejects_already_completed", "completes"],
@@ -383,10 +398,12 @@ CHECKS = {
         rule=("case c<=1100 uses plaintext length c exactly (every tail of the 8/16/48-block loops), later cases draw lengths around loop edges and up to 64 KiB "
               "(1 MiB in thorough); AAD length (c/5) mod 81 on every fifth case else boundary-biased up to 2 KiB; tag 8/12/16; random data/AAD/IV/tag alignment 0..63, "
               "key-data at 16-byte residues; in-place or out-of-place; _nt variants with 64-byte aligned disjoint buffers; each case runs enc and dec for both key sizes "
-              "on the family symbols and on the isal_/legacy API forced onto the family; distinct_nontrivial = distinct (family, key size, direction, nt, in-place, route, "
+              "on the family symbols and on the isal_/legacy API forced onto the family; one message of 2^29+17 bytes per family and key size (bit length beyond 32 bits; thorough also 2^31+5 and 2^32+33 bytes), "
+              "encrypted one-shot in place and decrypted streamed, against OpenSSL; distinct_nontrivial = distinct (family, key size, direction, nt, in-place, route, "
               "length class, AAD length class, tag length)"),
         assumptions=AES_TRUST,
-        tasks=aes_tasks("C02", "gcm", GCM_FAMS, 1500, 60000),
+        tasks=lambda tier: aes_tasks("C02", "gcm", GCM_FAMS, 1500, 60000)(tier)
+        + [dict(engine="aesdiff", variant="plain", timeout=3000, args=["--prop", "C02", "--what", "gcmhuge", "--fam", fam, "--from", 0, "--count", 1, "--watchdog", 2900]) for fam in GCM_FAMS],
     ),
     "C07": dict(
         level="exploration", evaluations="gcm_update_calls", must_observe=["gcm_calls", "gcm_update_calls", "cases_sse", "cases_avx_gen2", "cases_avx_gen4", "cases_vaes_avx512"],
@@ -502,7 +519,7 @@ CHECKS = {
               "In both tiers random histories on all 28 pairs x 3 routes additionally move an idle context's documented running total (and the model's) forward by whole blocks to just below a threshold, so the following segments cross it at every residue without hashing gigabytes (the expected digest is the reference hash of the submitted bytes padded with the adjusted total). Small random histories add the total_length check at every hand-back. "
               "distinct_nontrivial = distinct (family, threshold, running total mod 2 blocks, flags, above/below threshold)"),
         assumptions=TRUST + ["OpenSSL 3.0 EVP digests as oracle for multi-GiB streams"],
-        tasks=big_tasks,
+        tasks=lambda tier: big_tasks(tier) + pairs_tasks("C15"),
     ),
     "C16": dict(
         level="exploration", evaluations=["null_subset_calls", "bad_scalar_calls", "valid_calls", "legacy_comparisons"],
